@@ -8,7 +8,7 @@ import types
 
 root, first, declared_path = sys.argv[1:4]
 sys.path.insert(0, root + '/src')
-out = {'first': first, 'path_mismatches': [], 'name_mismatches': [], 'errors': []}
+out = {'first': first, 'path_mismatches': [], 'name_mismatches': [], 'errors': [], 'names_checked': []}
 try:
     importlib.import_module(first)
     import eolib
@@ -62,6 +62,7 @@ for path, m in sorted(mods.items()):
     for n in public_defs(m):
         obj = getattr(m, n)
         for where, holder in (('.'.join(parts[:-1]), pkg), ('eolib', eolib)):
+            out['names_checked'].append([where, path, n])
             got = getattr(holder, n, None)
             if got is not obj:
                 out['name_mismatches'].append(dict(name=n, defined_in=path, looked_up_in=where, got=repr(got)[:80]))
@@ -78,6 +79,7 @@ for d in declared:      # {'name', 'dir', 'module'}
         out['name_mismatches'].append(dict(name=d['name'], defined_in=gen_mod, why='not a class'))
     pub = 'eolib.protocol' + ('.' + d['dir'].replace('/', '.') if d['dir'] else '')
     for where in (pub, 'eolib'):
+        out['names_checked'].append([where, gen_mod, d['name']])
         holder = sys.modules.get(where)
         got = getattr(holder, d['name'], None) if holder is not None else None
         if got is not cls:
